@@ -245,7 +245,7 @@ var hostileTokens = []string{"(", ")", "\"", ";", "\\", "@", "$TTL", "$ORIGIN", 
 	"$INCLUDE missing.db", "$INCLUDE cycle-a.db", "$GENERATE 1-3 a$ A 10.0.0.$", "$GENERATE 1-2 $$GENERATE 1-2 a$ A 10.0.0.$", "$GENERATE 1-2 x${0,300,d} A 10.0.0.1",
 	"$GENERATE 1-2 x${0,3,q} A 10.0.0.1", "$GENERATE 1-2 x${ A 10.0.0.1", "$GENERATE 0-70000 a$ A 10.0.0.1", "$GENERATE 5-1 a$ A 10.0.0.1", "$GENERATE 1-5/0 a$ A 10.0.0.1",
 	"$GENERATE -1-5 a$ A 10.0.0.1", "$GENERATE 1-99999999999999999999 a$ A 10.0.0.1", "$GENERATE 1-2/99999999999999999999 a$ A 10.0.0.1",
-	"$GENERATE 1-2 a${99999999999999999999} A 10.0.0.1", "$GENERATE 1-2 a${-5} A 10.0.0.1", "$GENERATE 2147483640-2147483647 a${10} A 10.0.0.1",
+	"$GENERATE 1-2 a${99999999999999999999} A 10.0.0.1", "$GENERATE 1-2 a${-5} A 10.0.0.1", "$GENERATE 2147483640-2147483647 a${10} A 10.0.0.1", "$GENERATE 0-9223372036854775807/9223372036854775807 a$ A 10.0.0.1",
 	"TYPE65536", "TYPE", "CLASS99999", "CLASS", "\\# 4 0102", "\\# 99999", "99999999999999999999", "1h2x", "\\000", "\x00", "\\1", "\\25", "\\256", "\\\n", "IN", "A", "ANY", "NONE",
 	"LOC", "LOC 1 N", "LOC 1 2 3 N 4 5 6 E m", "LOC 91 N 1 E 0", "SVCB 1 . key65535=\"", "HTTPS 1 . alpn", "APL 1:", "APL 3:1/2", "NSEC3 1 1 1 - -", "EUI48 00", "TXT", "TXT \"", "CAA 0", "DS 1 1 1",
 	"RRSIG A 8 3 1 20240101000000 2024 1 . AA==", "IPSECKEY 1 3 1 . AA==", "AMTRELAY 1 0 4 .", "NID 1 0:0:0", "HIP 2", "CERT 1 1 1", "\r", "\r\n", "\t", "\n\n", " \n", "1.2.3.4", "::1", "300"}
@@ -687,7 +687,7 @@ type gateCase struct {
 	Step    int64
 }
 
-var gateKinds = []string{"self", "cycle", "chain", "missing", "not-allowed", "not-allowed-nil-fs-canary", "via-generate-not-allowed", "nested-generate", "generate-limit", "generate-in-include-depth"}
+var gateKinds = []string{"self", "cycle", "chain", "missing", "not-allowed", "not-allowed-nil-fs-canary", "via-generate-not-allowed", "nested-generate", "generate-limit", "generate-in-include-depth", "generate-overflow"}
 
 func genGate(t *rapid.T) gateCase {
 	c := gateCase{Kind: rapid.SampledFrom(gateKinds).Draw(t, "kind")}
@@ -818,6 +818,18 @@ func checkGate(c gateCase) error {
 			wantRecs = np + int(c.N) + strings.Count(c.Suffix, "\n")
 		} else {
 			wantRecs, forbidden = np, "g0."
+		}
+	case "generate-overflow":
+		// the iterator reaches the largest int64 and must stop there instead of wrapping around
+		if c.Allowed {
+			body = "$GENERATE 0-9223372036854775807/9223372036854775807 g$ A 10.0.0.1\n"
+		} else {
+			body = "$GENERATE 9223372036854775806-9223372036854775807/2 g$ A 10.0.0.1\n"
+		}
+		wantErr = false
+		wantRecs = np + 1 + strings.Count(c.Suffix, "\n")
+		if c.Allowed {
+			wantRecs++
 		}
 	case "generate-in-include-depth":
 		// a $GENERATE that expands to $INCLUDE of a chain, includes allowed but no FS for the
